@@ -59,12 +59,15 @@ class Model:
 
 
 def _gen_arg(r, nlive):
-    shape = r.choice(["list", "tuple", "set", "dictkeys", "generator", "iter", "live", "self", "range", "list"])
+    shape = r.choice(["list", "tuple", "set", "dictkeys", "generator", "iter", "live", "self", "range", "list",
+                      "lazy_self", "iter_self", "filter_self", "lazy_live"])
     vals = [r.choice(_ELEMS) for _ in range(r.randrange(0, 6))]
     if shape == "live":
         return {"shape": "live", "ref": r.randrange(nlive)}
-    if shape == "self":
-        return {"shape": "self"}
+    if shape in ("self", "lazy_self", "iter_self", "filter_self"):
+        return {"shape": shape}
+    if shape == "lazy_live":
+        return {"shape": "lazy_live", "ref": r.randrange(nlive)}
     if shape == "range":
         return {"shape": "range", "n": r.randrange(0, 5)}
     return {"shape": shape, "vals": vals}
@@ -114,6 +117,17 @@ def _mk_arg(arg, live, models, t):
         return live[ref], list(models[ref].items), True
     if sh == "self":
         return live[t], list(models[t].items), True
+    # lazy iterables that READ the target (or another live set) while the operation runs; the reference semantics is
+    # "as if the argument had been materialised first"
+    if sh == "lazy_self":
+        return (x for x in live[t]), list(models[t].items), False
+    if sh == "iter_self":
+        return iter(live[t]), list(models[t].items), False
+    if sh == "filter_self":
+        return filter(lambda x: len(repr(x)) % 2 == 0, live[t]), [x for x in models[t].items if len(repr(x)) % 2 == 0], False
+    if sh == "lazy_live":
+        ref = arg["ref"] % len(live)
+        return (x for x in live[ref]), list(models[ref].items), False
     if sh == "range":
         return range(arg["n"]), list(range(arg["n"])), False
     vals = list(arg["vals"])
@@ -173,7 +187,12 @@ def run_case(case: dict) -> dict:
         if "arg" in op:
             real_arg, marg, setlike = _mk_arg(op["arg"], live, models, t)
             shape = op["arg"]["shape"]
-            if shape in ("generator", "iter"):
+            if name in ("ior", "iand", "isub", "ixor") and shape in ("lazy_self", "iter_self", "filter_self", "lazy_live"):
+                # the in-place OPERATORS are collections.abc.MutableSet's: they discard while iterating the operand,
+                # as every MutableSet does; a lazy operand that reads the target is outside their contract, so it is
+                # handed over as an independent one-shot iterator (the named *_update methods get the lazy one)
+                real_arg = iter(list(real_arg))
+            if shape in ("generator", "iter", "lazy_self", "iter_self", "filter_self", "lazy_live"):
                 probes["oneshot_args"] += 1
             if shape in ("live", "self"):
                 probes["alias_args"] += 1
